@@ -29,9 +29,12 @@ structure Node where
   parallel : Bool := false
 deriving Repr, Inhabited
 
-/-- one included STATIC injector -/
+/-- one step of the static sequence: an included STATIC injector, or (when `lit` is set) an included
+    literal value, which takes effect at its listed position -/
 structure SNode where
   id : Nat
+  /-- a literal value: no body, `outs = [its type]`, the value stored is this one -/
+  lit : Option Val := none
   fallible : Bool := false
   ins : List Ty := []
   /-- outputs; for a fallible one TerminalError has been retyped to error and stays in place -/
